@@ -287,6 +287,24 @@ CHECKS = {
         "slack 1e-9).",
         "DESIGN.md 3/C20",
     ),
+    "C16": (
+        "exploration",
+        "exhaustive enumeration of scheduler x mode x crop-state x selection x option lattice; every generated script is executed",
+        "For every scheduler, mode, crop state (every subset of finished "
+        "batches), batch_ids selection and option set the script is generated "
+        "by the real code, checked with bash -n, its array range parsed, and "
+        "run with bash once per index with the scheduler's variable set; a stub "
+        "launcher captures the embedded program after shell substitution, which "
+        "must compile and is executed in-process. The batches actually grown "
+        "(call log), the finished set, readiness and the exact reap are "
+        "compared with the intended set (requested ids / missing at generation "
+        "time / missing at run time). The xyzpy-grow entry point is run from "
+        "every state. A conformance subset uses the real interpreter and the "
+        "installed console script.",
+        "bash with stub scheduler variables stands in for SGE / PBS / SLURM; "
+        "num_workers programs are executed only in the real-interpreter subset.",
+        "DESIGN.md 3/C16",
+    ),
 }
 
 NOT_BUILT = "check not built yet in this session (design in DESIGN.md section 3)"
